@@ -194,3 +194,40 @@ def make_nic_gene(w, gid, chrom, start, strand):
             w.plant_sites(chrom, intr, strand)
     w.genes.append(g)
     return g, bb[-1][1]
+
+
+def two_cluster_gene(w, gid, chrom, start, strand="+", n_iso=1):
+    """A gene whose reads form two separate alignment clusters (a long intron no read spans): the locus is processed as two
+    regions, both naming the same reference isoform."""
+    rng = w.rng
+    ex = [(start, start + 400), (start + 1500, start + 1800), (start + 9000, start + 9300), (start + 10500, start + 11100)]
+    g = Gene(gid, chrom, strand)
+    g.transcripts.append(Transcript(gid + ".t1", gid, chrom, strand, ex, True, "two-cluster"))
+    if n_iso > 1:
+        g.transcripts.append(Transcript(gid + ".t2", gid, chrom, strand, [ex[0], (start + 1500, start + 1750), ex[2], ex[3]], True, "alt_donor"))
+    for t in g.transcripts:
+        for intr in t.introns:
+            w.plant_sites(chrom, intr, strand)
+    w.genes.append(g)
+    for _ in range(5):
+        w.make_read(chrom, [ex[0], ex[1]], polyt=30 if strand == "-" else 0, truth={"src": gid + ".t1", "class": "left-cluster"})
+        w.make_read(chrom, [ex[2], ex[3]], polya=30 if strand == "+" else 0, truth={"src": gid + ".t1", "class": "right-cluster"})
+    return g, ex[-1][1]
+
+
+def strip_tails(w):
+    """Remove soft-clipped polyA/polyT tails from every read (polyA-trimmed data set)."""
+    for r in w.reads:
+        if r.flag & 4 or not r.cigar:
+            continue
+        cig = list(r.cigar)
+        seq = r.seq
+        if cig and cig[0][0] == 4:
+            seq = seq[cig[0][1]:]
+            cig = cig[1:]
+        if cig and cig[-1][0] == 4:
+            seq = seq[:-cig[-1][1]]
+            cig = cig[:-1]
+        r.cigar, r.seq = cig, seq
+        r.truth["polya"] = False
+    return w
